@@ -47,12 +47,18 @@ func NewAdditionalProperties(ruleValue bytes.Bytes) *AdditionalProperties {
 	c.astNode = newEmptyRuleASTNode()
 	c.astNode.Source = jschema.RuleASTNodeSourceManual
 
+	// true and false may be written as strings: the AST shows them as written.
+	boolTokenType := jschema.TokenTypeBoolean
+	if ruleValue.InQuotes() {
+		boolTokenType = jschema.TokenTypeString
+	}
+
 	txt := ruleValue.Unquote()
 	txtStr := txt.String()
 	switch {
 	case txt.OneOf("any", "true"):
 		if txt.String() == "true" {
-			c.astNode.TokenType = jschema.TokenTypeBoolean
+			c.astNode.TokenType = boolTokenType
 			c.astNode.Value = "true"
 		} else {
 			c.astNode.TokenType = jschema.TokenTypeString
@@ -61,7 +67,7 @@ func NewAdditionalProperties(ruleValue bytes.Bytes) *AdditionalProperties {
 		c.mode = AdditionalPropertiesCanBeAny
 
 	case txt.String() == "false":
-		c.astNode.TokenType = jschema.TokenTypeBoolean
+		c.astNode.TokenType = boolTokenType
 		c.astNode.Value = "false"
 		c.mode = AdditionalPropertiesNotAllowed
 
